@@ -1217,3 +1217,86 @@ Proof.
   pose proof (landed_fetch (auto_tail s) s (v_pcm s) Hland) as Hf. cbv zeta in Hf.
   replace (v_pcm s - base_of s (v_link s)) with 0 in Hf by lia. exact Hf.
 Qed.
+
+(* ov_raw_seek that leaves the link being decoded (or starts from a handle without decoder): the first page
+   after the byte position selects link j; the rest is as in raw_seek_truthful *)
+Theorem raw_seek_truthful_other_link (tail : list page) s pos pg (r1 : list page) j e0 :
+  let l := nth_link s j in
+  let pk := if pg_cont pg then tl (pg_pkts pg) else pg_pkts pg in
+  v_hs s = 0 -> OPENED <= v_rs s <= INITSET ->
+  0 <= pos <= file_end s ->
+  (v_rs s = OPENED \/ pos < li_off (cur_link s) \/ li_end (cur_link s) <= pos) ->
+  pages_from (v_pages s) pos = pg :: r1 ++ tail ->
+  find_link (v_links s) (pg_serial pg) 0 = Some j -> 0 <= j ->
+  pg_eos pg = false -> Forall (plain (pg_serial pg)) r1 ->
+  0 < li_bs0 l -> 0 < li_bs1 l -> li_bs0 l <= li_bs1 l -> li_bs0 l mod 4 = 0 -> li_bs1 l mod 4 = 0 -> 0 <= li_init l ->
+  0 <= e0 -> IntactS l true e0 false (pk ++ flat_map pg_pkts r1) -> scan_acc l 0 0 pk <> None ->
+  let s' := snd (raw_seek s pos) in
+  fst (raw_seek s pos) = 0 /\ v_link s' = j /\ v_pcm s' = base_of s j + e0 /\ Landed tail s' (v_pcm s').
+Proof.
+  intros l pk Hhs Hrs Hpos Hout Hpages Hfind Hj Heos Hplain Hb0 Hb1 Hb01 Hm0 Hm1 Hi He0 Hint Hsome.
+  unfold raw_seek.
+  assert ((v_rs s <? OPENED) = false) as -> by lia.
+  assert (((pos <? 0) || (pos >? file_end s)) = false) as -> by lia.
+  cbv zeta. cbn [fst snd].
+  set (s1 := if (v_rs s >=? STREAMSET) && ((pos <? li_off (cur_link s)) || (pos >=? li_end (cur_link s))) then decode_clear s else s).
+  assert (v_rs s1 = OPENED /\ v_links s1 = v_links s /\ v_pages s1 = v_pages s /\ v_hs s1 = v_hs s) as (R1 & R2 & R3 & R4).
+  { unfold s1. destruct ((v_rs s >=? STREAMSET) && ((pos <? li_off (cur_link s)) || (pos >=? li_end (cur_link s)))) eqn:E.
+    - repeat split; reflexivity.
+    - repeat split; try reflexivity. unfold OPENED, STREAMSET in *. lia. }
+  set (s2 := set_pcm (os_reset s1) (-1)).
+  set (s3 := set_dec s2 (dec_restart (cur_cfg s2) (v_dec s2))).
+  set (s4 := set_rem s3 (pages_from (v_pages s3) pos)).
+  assert (v_rem s4 = pg :: r1 ++ tail) as Hrem4 by (unfold s4; cbn [v_rem set_rem]; change (v_pages s3) with (v_pages s1); rewrite R3; exact Hpages).
+  rewrite Hrem4.
+  set (fuel := (length (pg :: r1 ++ tail) + pkt_count (pg :: r1 ++ tail) + 2)%nat).
+  destruct (scan_acc l 0 0 pk) as [[a g]|] eqn:Esc; [|congruence].
+  assert (exists p0 r0, pk = p0 :: r0) as (p0 & r0 & Hpk) by (destruct pk as [|p0 r0]; [discriminate|eauto]).
+  assert (fuel = S (length (r1 ++ tail) + pkt_count (pg :: r1 ++ tail) + 2))%nat as Hfu by (unfold fuel; cbn [length]; lia).
+  rewrite Hfu. cbn [raw_scan]. cbv zeta. cbn [r_wq r_last].
+  assert (v_rs s4 = OPENED) as R5 by exact R1.
+  rewrite R5. change (OPENED >=? STREAMSET) with false. cbv iota. cbn [Z.eqb negb]. rewrite Hrem4.
+  set (s5 := set_rem s4 (r1 ++ tail)).
+  assert (v_rs s5 = OPENED /\ v_links s5 = v_links s) as (Q2 & Q6) by (split; [exact R1|exact R2]).
+  rewrite Q2. change (OPENED >=? STREAMSET) with false. cbn [andb]. rewrite Q2. change (OPENED <? STREAMSET) with true. cbv iota.
+  rewrite Q6, Hfind.
+  set (s6 := set_rs (os_reset (set_link s5 j (pg_serial pg))) STREAMSET).
+  set (ff := pg_off pg <=? li_dataoff (cur_link s6)).
+  assert (os_pagein s6 pg = set_q s6 pk false 0) as Hpi.
+  { unfold os_pagein. unfold s6 at 1 2 3 4. cbn [v_serial v_fresh v_q v_pno set_rs os_reset set_q set_link]. rewrite Z.eqb_refl. cbn [negb andb app]. unfold pk in *.
+    destruct (pg_cont pg).
+    - destruct (pg_pkts pg) as [|x y]; [cbn in Hpk; discriminate|]. cbn [tl]. reflexivity.
+    - reflexivity. }
+  rewrite Hpi.
+  set (s7 := set_q s6 pk false 0).
+  assert (work_pagein {| r_last := 0; r_acc := 0; r_lastflag := false; r_firstflag := false; r_wq := []; r_wfresh := true |} pg (pg_eos pg) ff =
+          mk_r 0 0 false ff pk (if pg_cont pg then (match pg_pkts pg with [] => true | _ => false end) else false)) as Hwp.
+  { unfold work_pagein, mk_r. cbn [r_last r_acc r_wq r_wfresh andb app]. rewrite Heos. unfold pk. reflexivity. }
+  cbn [r_last r_acc r_lastflag r_firstflag]. rewrite Hwp.
+  assert (cur_link s7 = l /\ base_of s7 (v_link s7) = base_of s j /\ v_rs s7 = STREAMSET) as (L7 & B7 & RS7).
+  { unfold cur_link, nth_link, base_of, l. repeat split; cbn [v_links v_link s7 set_q s6 set_rs os_reset set_link]; rewrite Q6; reflexivity. }
+  rewrite (raw_scan_packets pk _ s7 0 0 false ff _ a g); try (rewrite L7; assumption); try (left; reflexivity); try reflexivity.
+  2: { assert (length pk <= length (pg_pkts pg))%nat by (unfold pk; destruct (pg_cont pg); [destruct (pg_pkts pg); cbn; lia|lia]). cbn [pkt_count]. lia. }
+  2: { rewrite RS7. lia. }
+  rewrite L7, B7.
+  destruct (scan_intact_first l Hb0 Hb1 Hm0 Hm1 pk e0 a g) as [A B].
+  { eapply IntactS_app_l. exact Hint. }
+  { exact Esc. }
+  assert ((let g1 := (let g0 := g - li_init l in if g0 <? 0 then 0 else g0) - a in if g1 <? 0 then 0 else g1) = e0) as Hval.
+  { cbv zeta. destruct (g - li_init l <? 0) eqn:E1; [lia|]. destruct (g - li_init l - a <? 0) eqn:E2; lia. }
+  rewrite Hval.
+  set (s' := set_pcm s7 (e0 + base_of s j)).
+  assert (v_link s' = j) as HLJ by reflexivity.
+  split; [reflexivity|]. split; [exact HLJ|]. split; [cbn; lia|].
+  assert (rem1 tail s' = r1) as Hr1 by (apply rem1_app; reflexivity).
+  assert (stream tail s' = pk ++ flat_map pg_pkts r1) as Hst by (unfold stream; rewrite Hr1; reflexivity).
+  unfold Landed. change (cur_link s') with (cur_link s7). rewrite L7. change (base_of s' (v_link s')) with (base_of s7 (v_link s7)). rewrite B7.
+  change (v_pcm s') with (e0 + base_of s j). rewrite Hst.
+  replace (e0 + base_of s j - base_of s j) with e0 by lia.
+  split; [change (v_hs s') with (v_hs s1); rewrite R4; exact Hhs|]. split; [left; exact RS7|].
+  repeat (split; [assumption|]).
+  split; [cbn; lia|]. split.
+  { unfold PlainRem. rewrite Hr1. split; [reflexivity|]. split; [reflexivity|]. exact Hplain. }
+  split; [exact He0|]. split; [exact Hint|]. split; [|lia].
+  rewrite Hpk in *. cbn [app IntactS Reaches] in *. destruct Hint as (w & Hw & _). rewrite Hw. left. lia.
+Qed.
